@@ -563,4 +563,62 @@ theorem keyHead_inj (qt qc qt' qc' : Nat) (d d' : Bool) (f f' : Fam) (l l' : Lis
   obtain ⟨a0, a1, c0, c1, hd, hf, hl⟩ := h
   exact ⟨u16_inj _ _ h1 h1' a0 a1, u16_inj _ _ h2 h2' c0 c1, b2n_inj _ _ hd, is6_inj _ _ hf, hl⟩
 
+/-! ## `geoip.File.Data`: histories of look-ups -/
+
+/-- A sequence of `Data` calls (client and ECS addresses of successive requests) from a given cache. -/
+def dataRun (lookup : Fam → Nat → Loc) (cache : Fam → Nat → Option Loc) :
+    List (Fam × Nat) → (Fam → Nat → Option Loc)
+  | [] => cache
+  | q :: qs => dataRun lookup (dataCached lookup cache q.1 q.2).2 qs
+
+/-- Every cached location is the database's answer for an address of that block that was asked. -/
+def CacheFrom (lookup : Fam → Nat → Loc) (cache : Fam → Nat → Option Loc) (seen : List (Fam × Nat)) : Prop :=
+  ∀ f k l, cache f k = some l → ∃ a', (f, a') ∈ seen ∧ blockOf f a' = k ∧ lookup f a' = l
+
+theorem cacheFrom_step (lookup : Fam → Nat → Loc) (cache : Fam → Nat → Option Loc) (seen : List (Fam × Nat))
+    (h : CacheFrom lookup cache seen) (q : Fam × Nat) :
+    CacheFrom lookup (dataCached lookup cache q.1 q.2).2 (seen ++ [q]) := by
+  intro f k l hc
+  unfold dataCached at hc
+  split at hc
+  · obtain ⟨a', hm, hb, hl⟩ := h f k l hc
+    exact ⟨a', by simp [hm], hb, hl⟩
+  · simp only at hc
+    split at hc
+    · rename_i hk
+      obtain ⟨hf, hk2⟩ := hk
+      subst hf
+      simp only [Option.some.injEq] at hc
+      exact ⟨q.2, by simp, hk2.symm, hc⟩
+    · obtain ⟨a', hm, hb, hl⟩ := h f k l hc
+      exact ⟨a', by simp [hm], hb, hl⟩
+
+theorem cacheFrom_run (lookup : Fam → Nat → Loc) (qs : List (Fam × Nat)) :
+    ∀ (cache : Fam → Nat → Option Loc) (seen : List (Fam × Nat)), CacheFrom lookup cache seen →
+      CacheFrom lookup (dataRun lookup cache qs) (seen ++ qs) := by
+  induction qs with
+  | nil => intro cache seen h; simpa [dataRun] using h
+  | cons q qs ih =>
+    intro cache seen h
+    have := ih _ _ (cacheFrom_step lookup cache seen h q)
+    simpa [dataRun, List.append_assoc] using this
+
+/-! ## Names -/
+
+theorem lowerByte_dot (b : Nat) : lowerByte b = 46 ↔ b = 46 := by
+  unfold lowerByte; split <;> omega
+
+/-- Lower-casing commutes with removing the final dot. -/
+theorem normalizeDomain_eq (n : List Nat) : normalizeDomain n = trimDot (n.map lowerByte) := by
+  unfold normalizeDomain trimDot
+  have hl : (n.map lowerByte).getLast? = some 46 ↔ n.getLast? = some 46 := by
+    rw [List.getLast?_map]
+    cases h : n.getLast? with
+    | none => simp
+    | some b => simp [lowerByte_dot]
+  by_cases h : n.getLast? = some 46
+  · rw [if_pos h, if_pos (hl.mpr h), List.map_dropLast]
+  · have h' : ¬ (n.map lowerByte).getLast? = some 46 := fun h' => h (hl.mp h')
+    rw [if_neg h, if_neg h']
+
 end Agd.ECS
